@@ -106,6 +106,7 @@ func kvConcHistory(rec *trace.Recorder, root string, seed int64, h int, sum *tra
 		name := fmt.Sprintf("r%d", r+1)
 		rounds := 1 + rng.Intn(2)
 		reads := 1 + rng.Intn(2)
+		again := rng.Intn(2) == 0
 		start(name, func() {
 			for i := 0; i < rounds; i++ {
 				id := fmt.Sprintf("%s.%d", name, i)
@@ -118,6 +119,12 @@ func kvConcHistory(rec *trace.Recorder, root string, seed int64, h int, sum *tra
 				sc.Yield(name, "close")
 				snap.Close()
 				rec.Emit("SnapClose", trace.F{"id": id})
+				if again {
+					// Close is idempotent (a snapshot shared by several result sets is closed by each)
+					sc.Yield(name, "close-again")
+					snap.Close()
+					rec.Emit("SnapCloseAgain", trace.F{"id": id})
+				}
 				sc.Yield(name, "next")
 			}
 		})
